@@ -14,6 +14,9 @@ var registry = map[string]func() ev.Spec{}
 
 func register(id string, f func() ev.Spec) { registry[id] = f }
 
+// subcommands are helper entry points (self-killing children etc.), "vcheck __name args...".
+var subcommands = map[string]func([]string){}
+
 func main() {
 	if len(os.Args) < 2 {
 		ids := make([]string, 0, len(registry))
@@ -25,6 +28,10 @@ func main() {
 		os.Exit(2)
 	}
 	id := os.Args[1]
+	if sc, ok := subcommands[id]; ok {
+		sc(os.Args[2:])
+		return
+	}
 	f, ok := registry[id]
 	if !ok {
 		fmt.Fprintln(os.Stderr, "unknown property", id)
